@@ -166,11 +166,29 @@ def _raw_noeffect(E, st, node, k):
 _raw_noeffect.raw = True
 _raw_noeffect.__name__ = 'attribute / text of an element: not part of the counting claim (arguments not evaluated)'
 
-TEXT_STMTS = {t: 'message / type / text of the element: strings, not part of the counting claim' for t in (
-    'excType, excInstance, tb = testCase.error', 'excType, excInstance, tb = testCase.failure',
-    'errorMessage = str(excInstance)', "stackTrace = ''.join(traceback.format_tb(tb))", 'del tb',
+# the strings put into attributes and text are not part of the counting claim, but computing them must not raise
+# (an exception here loses the report of this suite and of every later one): the statements are executed, with
+# str(exc) an arbitrary string -- possibly EMPTY -- and str.split(sep) a list with at least one element
+TEXT_STMTS = {t: 'text of the element: a string, not part of the counting claim' for t in (
     "text = errorMessage + '\\n\\n' + stackTrace", "text = f'{errorMessage}\\n\\n{stackTrace}'",
-    'errorNode.text = text', 'failureNode.text = text', "errorMessage = 'Could not extract error str for unicode error'")}
+    'errorNode.text = text', 'failureNode.text = text', 'del tb')}
+
+
+def unpack_excinfo(E, st, e):
+    return VTup([fresh_val(('obj', 'Any'), 'exc_type', st), fresh_val(('obj', 'Any'), 'exc_value', st),
+                 fresh_val(('obj', 'Any'), 'exc_tb', st)])
+
+
+def split_rule(E, st, node, args, kws, k):
+    L = st.alloc(fresh_hlist(('obj', 'Str'), 'parts', st))
+    st.assume(st.heap[L.rid].n >= 1)
+    return k(st, L)
+split_rule.__name__ = "str.split(sep): a list of strings with at least one element (the only part, possibly '', when sep does not occur)"
+
+
+def splitlines_rule(E, st, node, args, kws, k):
+    return k(st, st.alloc(fresh_hlist(('obj', 'Str'), 'lines', st)))
+splitlines_rule.__name__ = "str.splitlines(): a list of strings, EMPTY for the empty string"
 
 CASE_LOOP = {
     'property': ['C17'],
@@ -188,11 +206,13 @@ CASE_LOOP = {
     'raises': {},
     'callsites': {'testSuiteNode.append': ["tag_of(_arg0) == 'testcase'"],
                   'testCaseNode.append': ["tag_of(_arg0) == 'error' or tag_of(_arg0) == 'failure'"]},
+    'loop_anchors': {'#loop3': 'for testCase in suite.testCases:'},      # the label follows the loop, not its ordinal
     'loops': {'#loop3': ["G.ncase == old(G.ncase) + _i", "G.nerr == old(G.nerr) + count_errors_upto(suite.testCases, _i)",
                          "G.nfail == old(G.nfail) + count_failures_upto(suite.testCases, _i)"]},
     'skip_stmts': TEXT_STMTS,
     'rules': {'ElementTree.Element': element_rule, 'testSuiteNode.append': append_suite, 'testCaseNode.append': append_case,
-              '*Node.set': _raw_noeffect},
+              '*Node.set': 'NOEFFECT', 'str': 'fresh:Str', 'traceback.format_tb': 'fresh:Any', "''.join": 'fresh:Str',
+              '*.split': split_rule, '*.splitlines': splitlines_rule},
 }
 
 
@@ -259,6 +279,16 @@ def syntactic(E):
     E.syntactic_obligation("the report text can be written under every locale: it is serialised ASCII-only (ElementTree.tostring "
                            "default, character references) or the file is opened with an explicit encoding",
                            ascii_only or explicit, props=('C17',))
+    # frame: the report directory is shared by every process of a run (children started with --resume-layer write the
+    # reports of their own tests there): writing the reports removes or renames nothing
+    destructive = {'unlink', 'remove', 'rmtree', 'rmdir', 'removedirs', 'rename', 'renames', 'replace', 'move', 'truncate'}
+    bad = sorted({ast.unparse(c.func) for c in calls
+                  if (isinstance(c.func, ast.Attribute) and c.func.attr in destructive and not
+                      (c.func.attr == 'replace' and isinstance(c.func.value, (ast.Constant, ast.Name)) and len(c.args) == 2
+                       and all(isinstance(a, ast.Constant) and isinstance(a.value, str) for a in c.args)))
+                  or (isinstance(c.func, ast.Name) and c.func.id in destructive)})
+    E.syntactic_obligation("writeXMLReports deletes, renames or truncates nothing in the report directory (reports written earlier in "
+                           "the same run, by this or by a child process, stay)", not bad, props=('C17',))
     xml_char_class_lemma(E)
 
 
@@ -349,6 +379,7 @@ def register(E):
     ei = z3.Function('case_exc_info', Case, ExcInfo)
     E.objattrs[('CaseInfo', 'error')] = lambda eng, st, c: VOpt(z3.Not(has_err(c.z)), VObj('ExcInfo', ei(c.z)))
     E.objattrs[('CaseInfo', 'failure')] = lambda eng, st, c: VOpt(z3.Not(has_fail(c.z)), VObj('ExcInfo', ei(c.z)))
+    E.unpack_sorts['ExcInfo'] = unpack_excinfo
     E.objattrs[('CaseInfo', 'testClassName')] = 'Str'
     E.objattrs[('CaseInfo', 'testName')] = 'Str'
     E.objattrs[('CaseInfo', 'time')] = 'real'
